@@ -85,6 +85,13 @@ impl<T> Fx<T> {
         &&& self.local_drops == 0
         &&& self.local_reads == 0
     }
+    pub open spec fn same_effects_but_local(self, o: Fx<T>) -> bool {
+        &&& self.popped == o.popped
+        &&& self.used == o.used
+        &&& self.sent == o.sent
+        &&& self.taken == o.taken
+        &&& self.terminated == o.terminated
+    }
     /// everything except the critical-section list is unchanged
     pub open spec fn same_effects(self, o: Fx<T>) -> bool {
         &&& self.popped == o.popped
@@ -252,7 +259,47 @@ impl<T> Signal<T> {
             !b ==> reached(until) || self.seen_terminated(),
     { unimplemented!() }
     #[verifier::external_body]
-    pub fn is_terminated(&self) -> (b: bool) ensures b ==> !self.delivered(), self.seen_terminated() ==> b { unimplemented!() }
+    pub fn is_terminated(&self, Tracked(fx): Tracked<&mut Fx<T>>) -> (b: bool)
+        ensures b ==> !self.delivered(), self.seen_terminated() ==> b, *final(fx) == *old(fx) { unimplemented!() }
+    // ---- async flavour
+    #[verifier::external_body]
+    pub fn new_async() -> (r: Self) ensures r.fresh(), !r.is_sync() { unimplemented!() }
+    #[verifier::external_body]
+    pub fn new_async_ptr(ptr: KanalPtr<T>) -> (r: Self)
+        ensures r.fresh(), !r.is_sync(), ptr.has_value() ==> payload(r.term()) == ptr.lent() { unimplemented!() }
+    /// completion is decided from the signal state only
+    #[verifier::external_body]
+    pub fn poll(&self) -> (r: Poll<bool>)
+        ensures r matches Poll::Ready(b) ==> (b == self.delivered()
+            && (b && big::<T>() ==> ptr_filled(self.slot()) && ptr_val(self.slot()) == received(self.term())))
+    { unimplemented!() }
+    #[verifier::external_body]
+    pub fn async_blocking_wait(&self) -> (b: bool)
+        requires may_wait_peer(),
+        ensures b == self.delivered(),
+            b && big::<T>() ==> ptr_filled(self.slot()) && ptr_val(self.slot()) == received(self.term()),
+    { unimplemented!() }
+    /// re-pointing the slot keeps identity, freshness and registered waker
+    #[verifier::external_body]
+    pub fn set_ptr(&mut self, ptr: KanalPtr<T>)
+        requires /*@tag:O-setptr-unpublished C16 C15*/ old(self).fresh(),
+        ensures final(self).term() == old(self).term(), final(self).fresh(), final(self).is_sync() == old(self).is_sync(),
+            final(self).slot() == ptr.slot(), ptr.has_value() ==> payload(final(self).term()) == ptr.lent(),
+            forall|w: Waker| final(self).wakes(w) == old(self).wakes(w),
+    { unimplemented!() }
+    /// O-waker-under-lock: the waker of a signal that may already be published is replaced only while
+    /// the channel lock is held and the signal has been seen in the wait list under that same lock
+    #[verifier::external_body]
+    pub fn register_waker(&mut self, waker: &Waker, Tracked(fx): Tracked<&mut Fx<T>>)
+        requires /*@tag:O-waker-under-lock C16 C15*/ old(self).fresh() || (old(fx).held && old(fx).cs.len() > 0 && old(fx).cs.last().pre.wait_list@.contains(old(self).term())),
+        ensures final(self).wakes(*waker), final(self).term() == old(self).term(), final(self).fresh() == old(self).fresh(),
+            final(self).slot() == old(self).slot(), final(self).is_sync() == old(self).is_sync(), *final(fx) == *old(fx),
+    { unimplemented!() }
+    #[verifier::external_body]
+    pub fn will_wake(&self, waker: &Waker) -> (b: bool) ensures b == self.wakes(*waker) { unimplemented!() }
+    /// T8 (sender side, small T): drops the value still stored in the signal
+    #[verifier::external_body]
+    pub unsafe fn load_and_drop(&self) requires /*@tag:O-size-dispatch C04 C05*/ !big::<T>() { unimplemented!() }
     /// T8 (receiver side, small T): the value is in the signal itself
     #[verifier::external_body]
     pub unsafe fn assume_init(&self) -> (r: T)
@@ -291,6 +338,43 @@ impl<T> SignalTerminator<T> {
     { unimplemented!() }
     #[verifier::external_body]
     pub fn eq(&self, other: &Signal<T>) -> (r: bool) ensures r == (*self == other.term()) { unimplemented!() }
+}
+
+// ------------------------------------------------------------------ futures: trusted leaves
+pub uninterp spec fn ctx_waker(c: &Context<'_>) -> Waker;
+pub assume_specification<'a> [core::task::Context::<'a>::waker] (_0: &core::task::Context<'a>) -> (r: &'a Waker)
+    ensures *r == ctx_waker(_0);
+
+/// X3 stand-in for Pin<Box<F>>
+impl<F> PinBox<F> {
+    pub uninterp spec fn view(&self) -> F;
+    #[verifier::external_body]
+    pub fn new(f: F) -> (r: Self) ensures r.view() == f { unimplemented!() }
+    #[verifier::external_body]
+    pub fn as_mut(&mut self) -> (res: &mut F) ensures *res == old(self).view(), *final(res) == final(self).view() { unimplemented!() }
+}
+
+/// the value a send future still owns (meaningful in states Zero / Waiting)
+pub open spec fn send_fut_value<T>(f: SendFuture<'_, T>) -> T {
+    if big::<T>() { f.data.mem_contents().value() } else { payload(f.sig.term()) }
+}
+impl<'a, T> SendFuture<'a, T> {
+    /// T8: bitwise read of the future's own value (core::ptr::read / Signal::assume_init); trusted
+    #[verifier::external_body]
+    pub unsafe fn read_local_data(&self, Tracked(fx): Tracked<&mut Fx<T>>) -> (r: T)
+        requires big::<T>() ==> self.data.mem_contents() is Init,
+        ensures r == send_fut_value(*self), final(fx).local_reads == old(fx).local_reads + 1, final(fx).local_drops == old(fx).local_drops,
+            final(fx).cs == old(fx).cs, final(fx).same_effects_but_local(*old(fx)), final(fx).held == old(fx).held, final(fx).listed == old(fx).listed,
+    { unimplemented!() }
+}
+impl<'a, T> ReceiveFuture<'a, T> {
+    /// T8: reads the delivered value out of the future (requires evidence of delivery)
+    #[verifier::external_body]
+    pub unsafe fn read_local_data(&self, Tracked(fx): Tracked<&mut Fx<T>>) -> (r: T)
+        requires /*@tag:O-evidence-before-read C04 C16 C01*/ self.sig.delivered(),
+        ensures r == received(self.sig.term()), final(fx).local_reads == old(fx).local_reads + 1, final(fx).local_drops == old(fx).local_drops,
+            final(fx).cs == old(fx).cs, final(fx).same_effects_but_local(*old(fx)), final(fx).held == old(fx).held, final(fx).listed == old(fx).listed,
+    { unimplemented!() }
 }
 
 // ------------------------------------------------------------------ T9: clock
